@@ -1,4 +1,5 @@
 import H2T.Lemmas.FitsBlock
+import H2T.Lemmas.SubCompose
 
 /-! # C07 — lists, quotes, headings prefix every line; ordered items count from start
 
@@ -7,7 +8,9 @@ width is the parent's minus the prefix, and the result is appended with `first` 
 `rest` in front of every later line (`zipPrefix`).  Status: **partial** — proved: the shape of `zipPrefix`
 (one output line per content line, first/rest prefixes, nothing else changed); ordered-list numbers are
 `start, start+1, …` (saturating at the ends of `i64`); markers are padded to the list's common width;
-continuation indentation has that same width.  That the body's run equals the content's own rendering is
+continuation indentation has that same width; **a block quote, a heading and a `dd` are their content rendered at the
+narrower width with the prefix in front of every line** (`quote_is_prefixed_content`, `heading_is_prefixed_content`,
+`dd_is_indented_content`, footnotes off), and nested quotes stack their prefixes (`nested_quotes_stack`).  That the body's run equals the content's own rendering is
 definitional in `runOp (.sub …)` (the body starts from an empty renderer that shares only the annotation
 stack); the monotonicity of decimal marker widths between the first and the last item is checked by the
 harness over all starts in −100..100 ∪ {989..999}. -/
@@ -90,5 +93,64 @@ example :
     ((renderTree {} Deco.plain 20 tree).toOption.map fun ls =>
         ls.map fun l => match l with | .text tl => tl.filterMap (fun e => match e with | .cell c => some c.ch.cp | _ => none) | _ => [])
       = some [[57, 46, 32, 32, 97], [49, 48, 46, 32, 98]] := by decide +kernel
+
+/-! ## compositionality -/
+
+/-- without overflow `width_minus` grants exactly the width minus the prefix -/
+theorem widthMinus_value (s : SubR) (cfg : Cfg) (p m w' : Nat) (hov : cfg.overflow = false) (h : s.widthMinus cfg p m = .ok w') :
+    w' = s.width - p ∧ p ≤ s.width ∧ m ≤ w' := by
+  unfold SubR.widthMinus at h
+  simp only [hov, Bool.not_false, Bool.and_true] at h
+  split at h
+  · simp at h
+  · rename_i hc
+    injection h with h
+    simp only [Bool.or_eq_true, decide_eq_true_eq, not_or, Nat.not_lt] at hc
+    omega
+
+/-- **a block quote is its content, rendered at the narrower width, with the quote mark on every line** -/
+theorem quote_is_prefixed_content (cfg : Cfg) (d : Deco) (w w' : Nat) (kids : List RNode) (hfn : cfg.footnotes = false) (hw : w ≠ 0)
+    (hw' : SubR.widthMinus { width := w } cfg (dispW d.quotePrefix)
+      ((sizeOf d cfg.minWrap (.box {} .quote kids)).minW - dispW d.quotePrefix) = .ok w') (hw'0 : w' ≠ 0) :
+    renderTree cfg d w (.box {} .quote kids) =
+      (renderTree cfg d w' (.box {} .container kids)).map (zipPrefix [] d.quotePrefix d.quotePrefix) :=
+  renderTree_prefixed cfg d w _ kids _ _ _ _ true (by simp [compile, styleOpen_dflt, styleClose_dflt]) hfn hw w' hw' hw'0
+
+/-- **a heading is its content with the heading marker on every line** -/
+theorem heading_is_prefixed_content (cfg : Cfg) (d : Deco) (w w' lvl : Nat) (kids : List RNode) (hfn : cfg.footnotes = false) (hw : w ≠ 0)
+    (hw' : SubR.widthMinus { width := w } cfg (sizeOf d cfg.minWrap (.box {} (.header lvl) kids)).prefixSize
+      ((sizeOf d cfg.minWrap (.box {} (.header lvl) kids)).minW - (sizeOf d cfg.minWrap (.box {} (.header lvl) kids)).prefixSize) = .ok w')
+    (hw'0 : w' ≠ 0) :
+    renderTree cfg d w (.box {} (.header lvl) kids) =
+      (renderTree cfg d w' (.box {} .container kids)).map (zipPrefix [] (d.headerPrefix lvl) (d.headerPrefix lvl)) :=
+  renderTree_prefixed cfg d w _ kids _ _ _ _ true (by simp [compile, styleOpen_dflt, styleClose_dflt]) hfn hw w' hw' hw'0
+
+/-- **a definition (`dd`) is its content indented by two columns** -/
+theorem dd_is_indented_content (cfg : Cfg) (d : Deco) (w w' : Nat) (kids : List RNode) (hfn : cfg.footnotes = false) (hw : w ≠ 0)
+    (hw' : SubR.widthMinus { width := w } cfg 2 ((sizeOf d cfg.minWrap (.box {} .dd kids)).minW - 2) = .ok w') (hw'0 : w' ≠ 0) :
+    renderTree cfg d w (.box {} .dd kids) =
+      (renderTree cfg d w' (.box {} .container kids)).map (zipPrefix [] (strCh "  ") (strCh "  ")) :=
+  renderTree_prefixed cfg d w _ kids _ _ _ _ false (by simp [compile, styleOpen_dflt, styleClose_dflt]) hfn hw w' hw' hw'0
+
+/-- **nested quotes stack their prefixes**: the inner quote's lines get the mark twice -/
+theorem nested_quotes_stack (cfg : Cfg) (d : Deco) (w w1 w2 : Nat) (kids : List RNode) (hfn : cfg.footnotes = false) (hw : w ≠ 0)
+    (h1 : SubR.widthMinus { width := w } cfg (dispW d.quotePrefix)
+      ((sizeOf d cfg.minWrap (.box {} .quote [.box {} .quote kids])).minW - dispW d.quotePrefix) = .ok w1) (hw1 : w1 ≠ 0)
+    (h2 : SubR.widthMinus { width := w1 } cfg (dispW d.quotePrefix)
+      ((sizeOf d cfg.minWrap (.box {} .quote kids)).minW - dispW d.quotePrefix) = .ok w2) (hw2 : w2 ≠ 0) :
+    renderTree cfg d w (.box {} .quote [.box {} .quote kids]) =
+      ((renderTree cfg d w2 (.box {} .container kids)).map (zipPrefix [] d.quotePrefix d.quotePrefix)).map
+        (zipPrefix [] d.quotePrefix d.quotePrefix) := by
+  rw [quote_is_prefixed_content cfg d w w1 _ hfn hw h1 hw1]
+  have : renderTree cfg d w1 (.box {} .container [.box {} .quote kids]) = renderTree cfg d w1 (.box {} .quote kids) := by
+    unfold renderTree
+    have : compile cfg d (.box {} .container [.box {} .quote kids]) = compile cfg d (.box {} .quote kids) := by
+      rw [compile_container]; simp [compileList]
+    rw [this]
+  rw [this, quote_is_prefixed_content cfg d w1 w2 kids hfn hw1 h2 hw2]
+
+/-! non-vacuity: a quote at width 10 with the plain decorator -/
+example : (SubR.widthMinus { width := 10 } {} (dispW Deco.plain.quotePrefix)
+    ((sizeOf Deco.plain 3 (.box {} .quote [.text {} (strCh "hello world")])).minW - dispW Deco.plain.quotePrefix)).toOption = some 8 := by decide +kernel
 
 end H2T.C07
